@@ -32,14 +32,14 @@ func (s Status) String() string {
 
 // Obligation is one rule instance applied to one construct.
 type Obligation struct {
-	Rule   string `json:"rule"`
-	Key    string `json:"key"` // stable: rule + construct, never a line number
-	What   string `json:"what"`
-	Pos    string `json:"pos,omitempty"`
-	Status string `json:"status"`
-	Detail string `json:"detail,omitempty"`
+	Rule   string   `json:"rule"`
+	Key    string   `json:"key"` // stable: rule + construct, never a line number
+	What   string   `json:"what"`
+	Pos    string   `json:"pos,omitempty"`
+	Status string   `json:"status"`
+	Detail string   `json:"detail,omitempty"`
 	Path   []string `json:"path,omitempty"`
-	Config string `json:"config,omitempty"`
+	Config string   `json:"config,omitempty"`
 	status Status
 	known  string
 }
